@@ -40,6 +40,8 @@ def make_script(rng, n_ops):
                 ops.append(("data", i, W.tx_datagram(vers[i], fn, rng.below(8), rng.choice([0, 5, 20]), W.rand_burst(rng, rng.choice([148, 148, 444])))))
             ops.append(("tick", fn))
             fn = (fn + rng.choice([1, 1, 1, 2, 3])) % W.H
+        if rng.chance(1, 12):
+            ops.append(("ctrl", rng.below(2), W.rejected_cmd(rng)))      # refused / ignored: counter, period, mute and version stay as they are
     ops.append(("state",))
     return [], ops
 
@@ -65,7 +67,7 @@ def oracle(ctx, script, real):
                     st[i]["amount"], st[i]["period"] = args[0], (args[1] if len(args) > 1 else 1)
             elif verb == "RFMUTE":
                 st[i]["muted"] = args[0] > 0
-            elif verb == "SETFORMAT" and status == args[0]:
+            elif verb == "SETFORMAT" and len(args) == 1 and args[0] >= 0 and status == args[0]:      # applied (a refusal answers -1 or a lower version)
                 st[i]["ver"] = args[0]
             elif verb == "POWERON" and status == 0:
                 st[i]["run"] = True
